@@ -84,9 +84,27 @@ MkMapAlias(par) ==
   IN [ts |-> <<Tm("main", "", <<>>, main)>>, globals |-> NoVarsMap,
       runs |-> <<RunR("main", NoVarsMap, "D")>>, tag |-> "map2|" \o ord \o "|" \o asg]
 
-MkC(par) == IF par[1] = "mapalias" THEN MkMapAlias(par) ELSE IF par[1] = "path" THEN MkPath(par) ELSE IF par[1] = "residue" THEN MkResidue(par) ELSE MkCapture(par)
+\* a name that is also a built-in function: the template's own variable, an Execute variable or a global of that
+\* name wins wherever it is visible, and only there - at every evaluation, in every execution of the same template
+MkBuiltin(par) ==
+  LET variant == par[2]  path == par[3]
+      call == BCall("lower")
+      foc  == IF variant = "shadow" THEN <<P("f0", call), LetS("fl", "lower", Lit("FUNC:upper")), P("fb", call)>> ELSE <<P("fb", call)>>
+      r    == Build(path, 1, foc)
+      blk  == <<BlockS("bd", "bz", <<>>, NoE, <<P("bb", call)>>)>>
+      main == <<T("pre"), P("ab", call)>> \o blk \o r.main \o
+              <<P("zb", call), LetS("zl", "lower", Lit("FUNC:upper")), YieldS("zy", "bz", <<>>, NoE), P("zz", call), T("post")>>
+      lib  == Tm("lib", "", <<>>, r.bl)
+      vmf  == [NoVarsMap EXCEPT !["lower"] = "FUNC:vmf"]
+      gl   == IF variant = "global" THEN [NoVarsMap EXCEPT !["lower"] = "FUNC:glf"] ELSE NoVarsMap
+  IN [ts |-> <<Tm("main", "", <<"lib">>, main), lib>> \o r.ts, globals |-> gl,
+      runs |-> <<RunR("main", NoVarsMap, "D"), RunR("main", vmf, "D"), RunR("main", NoVarsMap, "D")>>,
+      tag |-> "builtin|" \o variant \o "|" \o PathTag(path)]
+
+MkC(par) == IF par[1] = "builtin" THEN MkBuiltin(par) ELSE IF par[1] = "mapalias" THEN MkMapAlias(par) ELSE IF par[1] = "path" THEN MkPath(par) ELSE IF par[1] = "residue" THEN MkResidue(par) ELSE MkCapture(par)
 cParams == ({"path"} \X PathsUpTo(Kinds, Depth) \X Focals)
            \cup ({"residue"} \X PathsUpTo(Kinds, 1) \X {"fail", "ok"})
            \cup ({"capture"} \X RKinds \X {"none", "k", "kv"} \X {":=", "="})
+           \cup ({"builtin"} \X {"plain", "shadow", "global"} \X PathsUpTo(Kinds, 1))
            \cup ({"mapalias"} \X {"ab", "ba"} \X {":=", "="})
 =============================================================================
